@@ -49,7 +49,7 @@ var propConfigs = map[string]propConfig{
 	"C08": {Gen: true, Bounded: []boundedCheck{{Name: "fragmented-reads", Run: "TestReplayC08", Module: true,
 		Bound: "an 11-record two-row-group file of the Rec shape per codec read through sources returning at most 1, 2, 3, 7, 64 bytes per call, five seeded random short-read patterns and data together with io.EOF: same records, no error"}}},
 	"C11": {Gen: true, Bounded: []boundedCheck{{Name: "every-prefix", Run: "TestReplayC11", Module: true,
-		Bound: "every strict prefix of files (three codecs, three row groups) whose string values embed complete trailers of a smaller file and trailer look-alikes with footer lengths 0, 1, 2 and 2^31-1: none may be accepted"}}},
+		Bound: "every strict prefix of files (three codecs, three row groups) whose string values embed complete trailers of a smaller file and trailer look-alikes with footer lengths 0, 1, 2 and 2^31-1, plus 56 look-alikes whose length word addresses a 2..3-byte fragment that starts like a thrift field (string, list, struct, varint) and runs into the end of the prefix (four row groups): none may be accepted"}}},
 	"C18": {Gen: true, Bounded: []boundedCheck{{Name: "unsupported-headers", Run: "TestReplayC18", Module: true,
 		Bound: "every page header of a Rec file rewritten in place to DICTIONARY/INDEX/V2 page types, non-PLAIN value encodings, BIT_PACKED level encodings, and a dictionary page without data page header, three codecs: every such file must be refused without panic"}}},
 	"C16": {Bounded: []boundedCheck{{Name: "independent-walk", Run: "TestReplayC16", Module: true,
@@ -61,7 +61,7 @@ var propConfigs = map[string]propConfig{
 	"C01": {Gen: true, Bounded: []boundedCheck{{Name: "round-trip", Run: "TestBoundedC01", Module: true,
 		Bound: "struct shapes Rec, Deep, three regression shapes of repaired finding D11 and four shapes of the known findings D10/D12 (replay/shapes, replay/opp; 40 record sets each), 39 resp. 30 resp. 40 seeded random record sets (0..120 records, three sets of 1300 records in pages of 600..2000 records so that level streams hold bit-packed runs beyond 504 values; nil/non-nil optionals and list lengths 0..3/9..17 at every level; min/max integers, +-0, +-Inf, NaN payloads, empty/long/non-UTF8 strings), partitions {one batch, two batches, one record per batch, 1/n3/rest}, page sizes 1,2,3,7,1000, three codecs: records read back and compared entry by entry (floats bit for bit, nil and empty lists alike), Rows(), number of true Next() calls, Error()==nil; every record's slices and strings mutated by the caller right after Add; all records compared only after the last one was scanned; thorough tier: 400 record sets per shape"}}},
 	"C04": {Gen: true, Bounded: []boundedCheck{{Name: "foreign-encodings", Run: "TestBoundedC04", Module: true,
-		Bound: "60 files (1..700 records of the Rec shape, 1-2 row groups, written with each codec and page sizes 1/3/8/1000) re-encoded by an independent rewriter into another legal encoding of the same content (seeded random: RLE runs of any length >= 1, bit-packed runs of any group count incl. > 63 groups with multi-byte headers, padding bits of the last group set to 1, pages split per column at arbitrary record boundaries, a codec per column, statistics/created_by present or absent); each rewritten file is first accepted by the independent checker and decoded back to the same columns, then read with the generated reader and compared record by record; thorough tier: 600 files"},
+		Bound: "60 files (1..700 records of the Rec shape, 1-2 row groups, written with each codec and page sizes 1/3/8/1000) re-encoded by an independent rewriter into another legal encoding of the same content (seeded random: RLE runs of any length >= 1, bit-packed runs of any group count incl. > 63 groups with multi-byte headers, padding bits of the last group set to 1, pages split per column at arbitrary record boundaries, a codec per column, statistics/created_by present or absent, ColumnChunk.file_offset = first page / 0 / position after the chunk); each rewritten file is first accepted by the independent checker and decoded back to the same columns, then read with the generated reader and compared record by record; thorough tier: 600 files"},
 		{Name: "level-decoder-foreign-encodings", PkgRel: "internal/rle", File: "replay/rle_bounded_test.go.txt", Run: "TestBoundedC07",
 			Bound: "the library's level decoder against an independent specification decoder on foreign legal encodings (bound as stated for C07)"}}},
 	"C06": {Gen: true, Bounded: []boundedCheck{{Name: "history-enumeration", Run: "TestBoundedC06", Module: true,
